@@ -54,188 +54,274 @@ def _resolved_returns(fn: ast.AST) -> List[Tuple[str, ast.Return]]:
     return out
 
 
-ITEMS = [
-    # (file, qualname, part, regex over one f-string shape, expected holes, extra local provenance)
-    (CF, "CFormatter._format_op_mode_encoder_item_le", "c-le",
-     r"^s\[\{(\w+)\}\] \{(\w+)\} \(\(\(unsigned char \*\)&\(\{(\w+)\}\)\)\[\{(\w+)\}\] \{(\w+)\}\) & \{(\w+)\};$",
-     ["si", "assign", "chain", "fi", "shift_s", "mask"], {"assign": ["'=' if r == 0 else '|='"], "shift_s": ["self.format_op_mode_smart_shift(shift)"]}),
-    (CF, "CFormatter._format_op_mode_decoder_item_le", "c-le",
-     r"^\(\(unsigned char \*\)&\(\{(\w+)\}\)\)\[\{(\w+)\}\] \{(\w+)\} \(s\[\{(\w+)\}\] \{(\w+)\}\) & \{(\w+)\};$",
-     ["chain", "fi", "assign", "si", "shift_s", "mask"], {"assign": ["'=' if r == 0 else '|='"], "shift_s": ["self.format_op_mode_smart_shift(shift)"]}),
-    (CF, "CFormatter._format_op_mode_encoder_item_be", "c-be",
-     r"^s\[\{(\w+)\}\] \{(\w+)\} \(\(\{(\w+)\}\)\(\{(\w+)\}\)\{(\w+)\}\) & \{(\w+)\};$",
-     ["si", "assign", "unsigned_type", "chain", "total_shift_s", "mask"],
-     {"assign": ["'=' if r == 0 else '|='"], "total_shift": ["fi * 8 + shift", "shift + fi * 8", "8 * fi + shift"], "total_shift_s": ["self.format_op_mode_smart_shift(total_shift)"], "unsigned_type": ["self._format_unsigned_chain_type(t)"]}),
-    (GF, "GoFormatter.format_op_mode_encoder_item", "go",
-     r"^s\[\{(\w+)\}\] \|= \(byte\(\{(\w+)\}\{(\w+)\}\) \{(\w+)\}\) & \{(\w+)\}$",
-     ["si", "chain", "bshift", "shift_s", "mask"], {"bshift": ["' >> {0}'.format(fi * 8) if fi > 0 else ''"], "shift_s": ["self.format_op_mode_smart_shift(shift)"]}),
-]
+# --------------------------------------------------------------------------
+# D2: the statement each item formatter emits, as a function of the planner's
+# outputs.  The formatter is summarised by the path engine (private helpers,
+# smart shift and shift renderers inlined), then every point of the planner's
+# output domain  r in 0..7, shift in -7..7, fi in 0..7  is folded into the path
+# conditions and the template holes; the resulting statement text must be the
+# one the layout rule prescribes for that point.
+# --------------------------------------------------------------------------
+
+PARAMS7 = ["chain", "t", "si", "fi", "shift", "mask", "r"]
+
+# scenario name -> (class of t, class of t.type or None)
+SCENARIOS = [("Uint", None), ("Int", None), ("Byte", None), ("Bool", None), ("Enum", "Uint"), ("Alias", "Uint"), ("Alias", "Int"), ("Alias", "Bool"), ("Alias", "Byte")]
+
+
+def _scenario_decider(repo: Repo, tcls: str, target: Optional[str], flags: Dict[str, bool]):
+    from .normal import V
+
+    m = get_model(repo)
+
+    def cls(n: str):
+        try:
+            return m.cls(n, "_ast.py")
+        except Inconclusive:
+            return None
+
+    subjects = {V("t"): cls(tcls)}
+    if target is not None:
+        subjects[V("t.type")] = cls(target)
+
+    def decide(key: Any) -> Optional[bool]:
+        if key[0] == "isinstance" and key[1] in subjects and subjects[key[1]] is not None:
+            k = subjects[key[1]]
+            res_ = False
+            for n in key[2]:
+                c = cls(n)
+                if c is None:
+                    return None
+                if m.is_subclass(k, c):
+                    res_ = True
+            return res_
+        if key[0] == "truthy":
+            from .normal import show
+
+            nm = show(key[1])
+            if nm in flags:
+                return flags[nm]
+        return None
+
+    return decide
+
+
+def _sm(n: int) -> str:
+    return f">> {n}" if n > 0 else (f"<< {-n}" if n < 0 else "")
+
+
+def _squash(x: str) -> str:
+    return "".join(x.split())
+
+
+def expected_statements(lang: str, which: str, be: bool, tcls: str, target: Optional[str], r: int, shift: int, fi: int) -> List[str]:
+    """The statement(s) the layout rule prescribes (several when more than one
+    spelling is correct C / Go)."""
+    A = "=" if r == 0 else "|="
+    S = _sm(shift)
+    is_bool = tcls == "Bool"
+    alias_bool = tcls == "Alias" and target == "Bool"
+    if lang == "c":
+        if not be:
+            if which == "encoder":
+                return [f"s[{{si}}] {A} (((unsigned char *)&({{chain}}))[{fi}] {S}) & {{mask}};"]
+            return [f"((unsigned char *)&({{chain}}))[{fi}] {A} (s[{{si}}] {S}) & {{mask}};"]
+        if which == "encoder":
+            return [f"s[{{si}}] {A} (({{U}})({{chain}}){_sm(fi * 8 + shift)}) & {{mask}};"]
+        bv = f"(((unsigned)(s[{{si}}]){S}) & {{mask}})"
+        if fi == 0:
+            return [f"{{chain}} |= ({{CT}}){bv};", f"{{chain}} |= ({{CT}})(({{U}}){bv} << 0);"]
+        out = [f"{{chain}} |= ({{CT}})(({{U}}){bv} << {fi * 8});"]
+        if fi * 8 < 32:
+            out.append(f"{{chain}} |= ({{CT}})({bv} << {fi * 8});")
+        return out
+    # go
+    if which == "encoder":
+        ch = "bool2byte({chain})" if is_bool else ("bool2byte(bool({chain}))" if alias_bool else "{chain}")
+        bsh = f" >> {fi * 8}" if fi > 0 else ""
+        return [f"s[{{si}}] |= (byte({ch}{bsh}) {S}) & {{mask}}"]
+    byte = f"byte(s[{{si}}] {S}) & {{mask}}"
+    bsh = f" << {fi * 8}" if fi > 0 else ""
+    if is_bool:
+        return [f"{{chain}} = byte2bool({byte}){bsh}"]
+    if alias_bool:
+        return [f"{{chain}} = {{CT}}(byte2bool({byte})){bsh}"]
+    return [f"{{chain}} |= {{CT}}({byte}){bsh}"]
+
+
+def _item_paths(repo: Repo, cls: str, rel: str, meth: str, tcls: str, target: Optional[str], be: bool):
+    from .flows import compiler_flow
+    from .normal import V
+
+    m = get_model(repo)
+    fi_ = m.func(rel, f"{cls}.{meth}")
+    params = [a.arg for a in fi_.node.args.args]
+    if len(params) != 8:
+        raise Inconclusive(f"{cls}.{meth}: parameter list is {params}")
+    flow = compiler_flow(repo, cls, rel, primitives=("_format_unsigned_chain_type", "format_type"), pure=("_format_unsigned_chain_type", "format_type"), decide=_scenario_decider(repo, tcls, target, {"self._op_mode_big_endian": be}), names={})
+    args = {p: V(c) for p, c in zip(params[1:], PARAMS7)}
+    args[params[0]] = V("self")
+    return fi_, flow.run(fi_.node, args)
+
+
+def _render(ret: Any, repl) -> Optional[str]:
+    from .fold import replace_atoms
+    from .normal import show
+    from .pyflow import single_atom, tpl_shape
+
+    def hole(h: Any) -> str:
+        v = replace_atoms(h, repl)
+        cv = v.const_value()
+        if cv is not None:
+            return str(cv)
+        a = single_atom(v)
+        if a is not None and a[0] in ("call", "mcall") and a[1] == "_format_unsigned_chain_type":
+            return "{U}"
+        if a is not None and a[0] in ("call", "mcall") and a[1] == "format_type":
+            return "{CT}"
+        if a is not None and a[0] == "var" and a[1] in ("si", "chain", "mask"):
+            return "{" + a[1] + "}"
+        if a is not None and a[0] in ("str", "tpl"):
+            inner = tpl_shape(v, hole)
+            return inner if inner is not None else "{?" + show(v) + "}"
+        return "{?" + show(v) + "}"
+
+    return tpl_shape(ret, hole)
 
 
 @rule("D2", "optimization-mode item templates: every hole has the role the planner computed it for; `=` only at r == 0; conversions placed around the shifts")
 def d2(repo: Repo) -> RuleResult:
+    from .fold import by_name, feasible
+
     res = RuleResult("D2", floor=6)
     m = get_model(repo)
-
-    def bad(part: str, fi, tag: str, msg: str, construct: str = "", witness: str = "") -> None:
-        f = Finding("D2", fi.rel, fi.node.lineno, fi.qual, construct, msg, witness=witness or "a multi-byte field at a non-zero bit offset with -O", tag=f"{fi.qual}:{tag}")
-        f.part = part
-        res.bad(f)
-
-    for relsfx, qual, part, rx, holes, prov in ITEMS:
-        try:
-            fi = m.func(relsfx, qual)
-        except Inconclusive as e:
-            res.unsure(f"D2: {e}")
-            continue
-        params = [a.arg for a in fi.node.args.args]
-        if params != ["self", "chain", "t", "si", "fi", "shift", "mask", "r"]:
-            res.unsure(f"D2: {qual}: parameter list is {params}")
-            continue
-        shapes = [sh for sh, _ in _resolved_returns(fi.node)] or _shapes(fi.node)
-        hit = None
-        others = []
-        for s in shapes:
-            mm = re.match(rx, s)
-            if mm:
-                hit = (s, list(mm.groups()))
-            else:
-                others.append(s)
-        res.inst(part=part, function=qual, template=hit[0] if hit else shapes)
-        unmasked = [s for s in others if ("& {mask}" not in s) and ("s[{" in s or "{chain}" in s)]
-        for s in unmasked:
-            r0 = next((r for sh, r in _resolved_returns(fi.node) if sh == s), None)
-            conds = sorted(("" if t else "not ") + src_of(e) for e, t in facts_at(r0, fi.node)) if r0 is not None else []
-            bad(part, fi, "unmasked", f"under {conds or 'some condition'} the statement `{s}` is emitted without `& mask`: the chunk is not limited to its c bits, so an out-of-range value (or sign bits) reaches the next field's bits or the padding", construct=s, witness="a byte-aligned field whose width is not a multiple of 8 holding an out-of-range value, with -O")
-        if hit is None:
-            if not unmasked:
-                res.unsure(f"D2: {qual}: statement template not in the enumerated form: {shapes}")
-            continue
-        if [s for s in others if s not in unmasked]:
-            res.unsure(f"D2: {qual}: additional statement templates outside the enumerated form: {[s for s in others if s not in unmasked]}")
-        got = hit[1]
-        if got != holes:
-            wrong = [(g, h) for g, h in zip(got, holes) if g != h]
-            bad(part, fi, "roles", f"template holes are {got}, the roles require {holes} (e.g. `{wrong[0][0]}` where `{wrong[0][1]}` belongs)", construct=hit[0])
-        loc = _locals(fi.node)
-        for name, accepted in prov.items():
-            if loc.get(name) not in accepted:
-                bad(part, fi, f"prov:{name}", f"`{name}` is computed as `{loc.get(name)}`, expected one of {accepted}", construct=str(loc.get(name)), witness="`=` at r != 0 clobbers bits already placed in the byte / a wrong shift direction" if name in ("assign", "shift_s", "total_shift") else "")
-    # C big-endian decoder (two templates)
-    try:
-        fi = m.func(CF, "CFormatter._format_op_mode_decoder_item_be")
-        shapes = _shapes(fi.node)
-        loc = _locals(fi.node)
-        res.inst(part="c-be", function=fi.qual, template=shapes)
-        want_byte = "(((unsigned)(s[{si}]){shift_s}) & {mask})"
-        want_hi = "{chain} |= ({chain_type})(({unsigned_type}){byte_val} << {fi_shift});"
-        want_lo = "{chain} |= ({chain_type}){byte_val};"
-        if want_byte not in shapes or want_hi not in shapes or want_lo not in shapes:
-            if any("|=" not in s and "{chain} =" in s for s in shapes):
-                bad("c-be", fi, "assign", "the big-endian decoder assigns with `=`: bytes decoded earlier are clobbered", construct=str(shapes))
-            elif any("{byte_val} << {fi_shift}" in s and "({unsigned_type})" not in s for s in shapes):
-                bad("c-be", fi, "widen", "the byte is shifted left before it is widened to the field's unsigned type: for fi_shift >= 32 the shift on `unsigned` is undefined / loses the bits", construct=str(shapes), witness="uint64 field with -O on a big-endian build")
-            else:
-                res.unsure(f"D2: {fi.qual}: templates not in the enumerated form: {shapes}")
-        for name, accepted in {"shift_s": ["self.format_op_mode_smart_shift(shift)"], "fi_shift": ["fi * 8", "8 * fi"], "chain_type": ["self.format_type(t)"], "unsigned_type": ["self._format_unsigned_chain_type(t)"]}.items():
-            if loc.get(name) not in accepted:
-                bad("c-be", fi, f"prov:{name}", f"`{name}` is computed as `{loc.get(name)}`, expected one of {accepted}", construct=str(loc.get(name)))
-        # which template is returned for each fi_shift value; from 32 on the byte must be widened before the shift
-        from .rules_d3 import _fold_pred
-
-        rr = _resolved_returns(fi.node)
-        for val in (0, 8, 16, 24, 32, 40, 48, 56):
-            chosen = None
-            for shape, r in rr:
-                ok = True
-                for e, truth in facts_at(r, fi.node):
-                    v = _fold_pred(e, "fi_shift", val)
-                    if v is None:
-                        v2 = _fold_pred(e, "fi", val // 8)
-                        v = v2
-                    if v is not None and bool(v) != truth:
-                        ok = False
-                if ok and chosen is None:
-                    chosen = shape
-            res.inst(part="c-be", function=fi.qual, fi_shift=val, template=chosen)
-            if chosen is None:
-                res.unsure(f"D2: {fi.qual}: no template selected for fi_shift = {val}")
-                break
-            shifted = "<< {fi_shift}" in chosen
-            widened = "({unsigned_type})" in chosen.split("<< {fi_shift}")[0] if shifted else False
-            if val > 0 and not shifted:
-                bad("c-be", fi, f"no-shift:{val}", f"for fi_shift = {val} the decoded byte is not shifted to its position in the field", construct=chosen)
-                break
-            if val >= 32 and shifted and not widened:
-                bad("c-be", fi, "widen-threshold", f"for fi_shift = {val} the 32-bit `unsigned` byte value is shifted left without first being widened to the field's unsigned type: shifting a 32-bit value by {val} is undefined / loses the bits", construct=chosen, witness="uint33 holding 2**32 decodes as 0 with -O on a big-endian build")
-                break
-    except Inconclusive as e:
-        res.unsure(f"D2: {e}")
-    # Go decoder
-    try:
-        fi = m.func(GF, "GoFormatter.format_op_mode_decoder_item")
-        shapes = _shapes(fi.node)
-        loc = _locals(fi.node)
-        res.inst(part="go", function=fi.qual, template=shapes)
-        need = ["byte(s[{si}] {shift_s}) & {mask}", "{type_s}({byte})", "{chain} {assign} {data}{bshift}"]
-        missing = [x for x in need if x not in shapes]
-        if missing:
-            if "{chain} {assign} {data}{bshift}" not in shapes and any("{bshift}" in s and "{data}" not in s for s in shapes):
-                bad("go", fi, "widen", "the chunk is shifted before it is widened to the field's type", construct=str(shapes), witness="uint16 field: byte(...) << 8 is always 0")
-            else:
-                res.unsure(f"D2: {fi.qual}: templates not in the enumerated form (missing {missing})")
-        for name, accepted in {"shift_s": ["self.format_op_mode_smart_shift(shift)"], "bshift": ["' << {0}'.format(fi * 8) if fi > 0 else ''"], "type_s": ["self.format_type(t)"]}.items():
-            if loc.get(name) not in accepted:
-                bad("go", fi, f"prov:{name}", f"`{name}` is computed as `{loc.get(name)}`, expected one of {accepted}", construct=str(loc.get(name)))
-        # plain '=' only for bool / alias of bool
-        for n in ast.walk(fi.node):
-            if isinstance(n, ast.Assign) and src_of(n.targets[0]) == "assign" and isinstance(n.value, ast.Constant) and n.value.value == "=":
-                conds = {("" if t else "not ") + src_of(e) for e, t in facts_at(n, fi.node)}
-                if not (conds & {"isinstance(t, Bool)", "isinstance(alias_t.type, Bool)"}):
-                    bad("go", fi, "assign", f"plain `=` is used under {sorted(conds)} (only bool may be assigned, every other type is ORed chunk by chunk)", construct=src_of(n), witness="uint16 field: the second chunk overwrites the first")
-    except Inconclusive as e:
-        res.unsure(f"D2: {e}")
-    # smart shift helper and dispatch on the mode flag
-    try:
-        ss = m.func("renderer/formatter.py", "Formatter.format_op_mode_smart_shift")
-        rets = sorted((tuple(sorted(("" if t else "not ") + src_of(e) for e, t in facts_at(r, ss.node))), src_of(r.value)) for r in ast.walk(ss.node) if isinstance(r, ast.Return) and r.value is not None)
-        res.inst(part="planner", function=ss.qual, returns=rets)
-        ok = (("n > 0",), "self.format_right_shift(n)") in rets and any(v in ("self.format_left_shift(0 - n)", "self.format_left_shift(-n)") and "n < 0" in c for c, v in rets) and any(v == "''" for _, v in rets)
-        if not ok:
-            f = Finding("D2", ss.rel, ss.node.lineno, ss.qual, str(rets), "smart shift is not: right shift by n for n > 0, left shift by -n for n < 0, nothing for 0", witness="every chunk whose stream and value offsets differ", tag="smart_shift")
-            f.part = "planner"
-            res.bad(f)
-        for meth, want in (("format_left_shift", "<< {n}"), ("format_right_shift", ">> {n}")):
-            fn = m.func("renderer/formatter.py", f"Formatter.{meth}")
-            sh = _shapes(fn.node)
-            res.inst(part="planner", function=fn.qual, template=sh)
-            if sh != [want]:
-                f = Finding("D2", fn.rel, fn.node.lineno, fn.qual, str(sh), f"{meth} must render `{want}`", tag=meth)
-                f.part = "planner"
-                res.bad(f)
+    sites = [
+        ("c", "c-le", "CFormatter", CF, False),
+        ("c", "c-be", "CFormatter", CF, True),
+        ("go", "go", "GoFormatter", GF, False),
+    ]
+    for lang, part, cls, rel, be in sites:
         for which in ("encoder", "decoder"):
-            fn = m.func(CF, f"CFormatter.format_op_mode_{which}_item")
-            t = src_of(fn.node)
-            res.inst(part="c", function=fn.qual)
-            if f"if self._op_mode_big_endian:\n        return self._format_op_mode_{which}_item_be(chain, t, si, fi, shift, mask, r)" not in t or f"return self._format_op_mode_{which}_item_le(chain, t, si, fi, shift, mask, r)" not in t:
-                f = Finding("D2", fn.rel, fn.node.lineno, fn.qual, "", "the item formatter does not select the big-endian template exactly when the mode flag is set, passing the planner tuple unchanged", witness="--endian big output contains byte-pointer statements", tag=f"dispatch:{which}")
-                f.part = "c"
-                res.bad(f)
-        uc = m.func(CF, "CFormatter._format_unsigned_chain_type")
-        t = src_of(uc.node)
-        res.inst(part="c-be", function=uc.qual)
-        if "n = self.get_nbits_of_integer(t)" not in t or "return f'uint{n}_t'" not in t or "return self.format_uint_type(t)" not in t:
-            f = Finding("D2", uc.rel, uc.node.lineno, uc.qual, "", "the unsigned working type of a field is not the unsigned integer of the field's storage size", witness="int32 field shifted as a narrower type on big-endian", tag="unsigned_chain_type")
-            f.part = "c-be"
-            res.bad(f)
+            meth = f"format_op_mode_{which}_item"
+            reported = False
+            for tcls, target in SCENARIOS:
+                if reported:
+                    break
+                # bool chunks are always whole: fi = 0, r arbitrary
+                try:
+                    fi_, paths = _item_paths(repo, cls, rel, meth, tcls, target, be)
+                except Inconclusive as e:
+                    res.unsure(f"D2: {cls}.{meth}: {e}")
+                    reported = True
+                    break
+                checked = 0
+                fis = range(0, 1) if (tcls == "Bool" or target == "Bool") else range(0, 8)
+                for fi in fis:
+                    if reported:
+                        break
+                    for shift in range(-7, 8):
+                        if reported:
+                            break
+                        for r in (0, 1, 3, 7):
+                            repl = by_name({"r": r, "shift": shift, "fi": fi})
+                            ok, unfolded = feasible(paths, repl)
+                            if unfolded:
+                                res.unsure(f"D2: {cls}.{meth}: condition `{unfolded[0]}` does not fold for (r, shift, fi) = ({r}, {shift}, {fi})")
+                                reported = True
+                                break
+                            ok = [p for p in ok if p.done == "return"]
+                            stmts = sorted({(_render(p.ret, repl) or "{?}") for p in ok})
+                            want = expected_statements(lang, which, be, tcls, target, r, shift, fi)
+                            checked += 1
+                            if len(stmts) != 1:
+                                res.unsure(f"D2: {cls}.{meth}: {len(stmts)} statements for one planner output ({r}, {shift}, {fi})")
+                                reported = True
+                                break
+                            got = stmts[0]
+                            if "{?" in got:
+                                res.unsure(f"D2: {cls}.{meth}: statement `{got}` has a hole that is not one of the planner outputs")
+                                reported = True
+                                break
+                            if _squash(got) not in {_squash(w) for w in want}:
+                                strip = lambda x: _squash(x).replace("(", "").replace(")", "")
+                                if strip(got) in {strip(w) for w in want}:
+                                    res.unsure(f"D2: {cls}.{meth}: statement `{got}` differs from `{want[0]}` only in parentheses; operator precedence not judged")
+                                    reported = True
+                                    break
+                                msg, wit = _explain(got, want[0], lang, which, be, r, shift, fi, tcls, target)
+                                f = Finding("D2", fi_.rel, fi_.node.lineno, fi_.qual, got, f"for a {tcls}{'->' + target if target else ''} field and planner output (r={r}, shift={shift}, fi={fi}) the {'big-endian ' if be else ''}{which} emits `{got}`; the layout rule requires `{want[0]}`: {msg}", witness=wit, tag=f"{fi_.qual}:{part}:{_tag_of(msg)}")
+                                f.part = part
+                                res.bad(f)
+                                reported = True
+                                break
+                res.inst(part=part, function=f"{cls}.{meth}", scenario=f"{tcls}{'->' + target if target else ''}", grid_points=checked, paths=len(paths))
+    # unsigned working type of the big-endian templates
+    try:
+        _unsigned_chain(repo, res)
     except Inconclusive as e:
         res.unsure(f"D2: {e}")
     return res
 
 
-# --------------------------------------------------------------------------
-# F5 endian selection
-# --------------------------------------------------------------------------
+def _tag_of(msg: str) -> str:
+    return msg.split(":")[0].split(" (")[0][:40].replace(" ", "-")
+
+
+def _explain(got: str, want: str, lang: str, which: str, be: bool, r: int, shift: int, fi: int, tcls: str, target: Optional[str]) -> Tuple[str, str]:
+    g, w = _squash(got), _squash(want)
+    if "&{mask}" not in g:
+        return "unmasked (the chunk is not limited to its c bits, so an out-of-range value or sign bits reach the next field's bits or the padding)", "a byte-aligned field whose width is not a multiple of 8 holding an out-of-range value, with -O"
+    if ("|=" in w) != ("|=" in g):
+        if "|=" in w:
+            return "assign (`=` where earlier chunks of the same byte / field must be kept)", "`=` at r != 0 clobbers bits already placed in the byte"
+        return "assign (`|=` on the first write of a byte that has no zero baseline)", "decode into a reused struct keeps stale bits"
+    if lang == "c" and be and which == "decoder" and "<<" in w and fi * 8 >= 32 and "({U})" not in g.split("<<" + str(fi * 8))[0][-60:]:
+        return "widen-threshold (the 32-bit `unsigned` byte value is shifted left without first being widened to the field's unsigned type)", "uint33 holding 2**32 decodes as 0 with -O on a big-endian build"
+    if lang == "go" and which == "decoder" and "<<" in w and not g.endswith(w[w.rfind("<<"):]):
+        return "widen (the chunk is shifted before it is widened to the field's type)", "uint16 field: byte(...) << 8 is always 0"
+    return "roles (a hole or shift does not carry the quantity the planner computed for it)", "a multi-byte field at a non-zero bit offset with -O"
+
+
+def _unsigned_chain(repo: Repo, res: RuleResult) -> None:
+    """CFormatter._format_unsigned_chain_type per class of t: an unsigned C
+    type at least as wide as the storage of the leaf integer."""
+    from .flows import compiler_flow
+    from .normal import V, show
+    from .pyflow import single_atom, tpl_shape
+
+    m = get_model(repo)
+    uc = m.func(CF, "CFormatter._format_unsigned_chain_type")
+    param = uc.node.args.args[1].arg
+    wide_ok = {"uint64_t"}
+    small_ok = {"uint8_t", "unsigned char", "unsigned", "unsigned int", "uint16_t", "uint32_t", "uint64_t"}
+    for tcls, target in SCENARIOS:
+        flow = compiler_flow(repo, "CFormatter", CF, primitives=("get_nbits_of_integer", "format_uint_type", "format_int_type"), pure=("get_nbits_of_integer", "format_uint_type", "format_int_type"), decide=_scenario_decider(repo, tcls, target, {}))
+        paths = flow.run(uc.node, {"self": V("self"), param: V("t")})
+        leaf = "t.type" if target is not None else "t"
+        leaf_cls = target or tcls
+        vals = []
+        for p in paths:
+            if p.done != "return" or p.ret is None:
+                vals.append("<raise>")
+                continue
+            vals.append(tpl_shape(p.ret) or "{" + show(p.ret) + "}")
+        vals = sorted(set(vals))
+        res.inst(part="c-be", function=uc.qual, scenario=f"{tcls}{'->' + target if target else ''}", returns=vals)
+        if len(vals) != 1:
+            res.unsure(f"D2: {uc.qual}: {len(vals)} results for a {tcls}{'->' + target if target else ''}: {vals}")
+            continue
+        v = vals[0]
+        if leaf_cls in ("Bool", "Byte"):
+            ok = v in small_ok
+        else:
+            ok = v in wide_ok or v in (f"uint{{self.get_nbits_of_integer({leaf})}}_t", f"{{self.format_uint_type({leaf})}}")
+        if not ok:
+            if "{" not in v or "get_nbits_of_integer" in v or "format_uint_type" in v or "format_int_type" in v:
+                f = Finding("D2", uc.rel, uc.node.lineno, uc.qual, v, f"for a {tcls}{'->' + target if target else ''} field the big-endian templates shift the value as `{v}`, which is not the unsigned integer of the field's storage size (leaf `{leaf}`)", witness="an alias of uint64 holding a value with bits above 31 encodes wrongly with -O on a big-endian build", tag=f"unsigned_chain_type:{tcls}{'->' + target if target else ''}")
+                f.part = "c-be"
+                res.bad(f)
+            else:
+                res.unsure(f"D2: {uc.qual}: result `{v}` for {tcls} not recognised")
 
 
 @rule("F5", "--endian selects exactly the little- and/or big-endian statement lists, `both` under #ifndef BP_BIG_ENDIAN / #else / #endif")
